@@ -48,7 +48,7 @@ BASE_MIX = {
     'validate': 3, 'roundtrip': 2, 'get_sliver': 3, 'sliver_copy': 1, 'checkpoint': 1, 'diff_slivers': 2,
     'collect_authz': 2, 'collect_log': 1, 'views_readonly': 1, 'prune': 1, 'label_service_port': 1,
     # substrate flavour
-    'node_add_network_service': 0, 'svc_add_interface': 0, 'add_link': 0, 'remove_link': 0,
+    'node_add_network_service': 0.4, 'svc_add_interface': 0.8, 'add_link': 0, 'remove_link': 0,
     'svc_remove_interface': 0, 'node_remove_network_service': 0,
 }
 SUBSTRATE_MIX = {
@@ -69,7 +69,8 @@ PROP_BOOST = {
     'C09': {'failing': 14, 'peer': 5, 'connect_interface': 8, 'add_child_interface': 5},
     'C02': {'set_property': 20, 'unset_property': 8, 'get_sliver': 10, 'sliver_copy': 6, 'set_properties': 4, 'prop_setter': 4,
             'update_labels': 3, 'update_capacities': 3},
-    'C10': {'validate': 14, 'add_network_service': 14, 'connect_interface': 8, 'set_property': 8},
+    'C10': {'validate': 14, 'add_network_service': 14, 'connect_interface': 8, 'set_property': 8,
+            'node_add_network_service': 2, 'svc_add_interface': 4},
     'C11': {'collect_authz': 10, 'collect_log': 5, 'add_port_mirror_service': 10, 'add_facility': 5,
             'add_network_service': 12, 'roundtrip': 3, 'label_service_port': 6, 'validate': 4, 'add_component': 14},
     'C17': {'checkpoint': 3, 'diff_slivers': 22, 'edit_tracked': 14, 'respell_user_data': 6, 'set_property': 10, 'add_component': 12, 'remove_component': 6,
